@@ -582,6 +582,16 @@ class Evaluator:
             return self.hooks["macro:" + e["name"]](self, e, env)
         if e["name"] in ("unreachable", "todo", "unimplemented", "panic"):
             raise Panic(e["name"] + "!", e.get("l"))
+        if e["name"] == "matches" and e.get("pat") is not None and e.get("args"):
+            v = self.eval(e["args"][0], env)
+            b = {}
+            if not match_pat(e["pat"], v, b):
+                return False
+            if e.get("guard") is not None:
+                env2 = dict(env)
+                env2.update(b)
+                return self._bool(self.eval(e["guard"], env2))
+            return True
         raise Unknown("macro %s!" % e["name"])
 
     # control flow
